@@ -25,6 +25,7 @@ def run(ctx):
     R2 = rep.rule('C11.R2', 'blanket select_ids: push only File entries whose extension is in T::EXTENSIONS', floor=2)
     R3 = rep.rule('C11.R3', 'RecursiveDirectory::load: own directory with `?`, children only on Ok, failing child skipped', floor=3)
     R4 = rep.rule('C11.R4', 'iter loads / iter_cached only looks up; Arc<T> forwards', floor=6)
+    R5 = rep.rule('C11.R5', 'archive sources: a directory listing that was already started is never replaced (an entry of a directory may come before or after the directory member itself)', floor=2)
     for cfg, F in ctx.cfgs():
         r1(R1, cfg, F)
         r2(R2, cfg, F)
@@ -32,6 +33,40 @@ def run(ctx):
         r4(R4, cfg, F)
         for r in (R1, R2, R3, R4):
             r.finish_cfg(cfg)
+        if any(x in ctx.cfg_features[cfg] for x in ('zip', 'tar')):
+            r5(R5, cfg, F)
+            R5.finish_cfg(cfg)
+
+
+def r5(R5, cfg, F):
+    """`load_dir` lists what the source's read_dir reports; the zip / tar sources report what register_file put in
+    their `dirs` map while scanning the archive.  Archives do not promise that a directory member precedes its content,
+    so creating the (empty) listing of a directory must never overwrite one that exists: the only plain `insert`
+    allowed on that map is guarded by `!contains_key(same key)`; everything else goes through entry().or_default()."""
+    n = 0
+    for b in F.fn_bodies():
+        if not re.match(r'source::(zip|tar)::', b.path):
+            continue
+        for c in b.calls():
+            if not (c.callee and c.callee.name == 'insert' and 'HashMap' in c.callee.best and c.args):
+                continue
+            ty = c.args[0]['place']['ty'] if c.args[0]['k'] in ('copy', 'move') else ''
+            if not re.search(r'std::vec::Vec<source::(\w+::)?OwnedEntry>', ty):
+                continue
+            n += 1
+            recv = common.base_path(b, c.args[0], at=c.bb)
+            key = b.origins(c.args[1], passthrough=common.make_pt(r'Clone>::clone$'))
+            ok = False
+            for site, truth in common.call_truth_guards(b, c.bb):
+                if site.callee and site.callee.name == 'contains_key' and truth is False and common.base_path(b, site.args[0], at=site.bb) == recv \
+                        and b.origins(site.args[1], passthrough=common.pt_deref) & key:
+                    ok = True
+            R5.check(ok, cfg, b.path, 'listing-created-only-if-absent',
+                     'a directory listing is inserted without checking that none exists for that id: the entries already registered for that directory are lost '
+                     '(archives may list a directory after its content)', c.loc())
+    if n == 0:
+        R5.note(cfg, plain_inserts=0)
+        R5.ok(cfg, 'source::(zip|tar)', 'no-plain-insert-on-dirs', None)
 
 
 def r1(R1, cfg, F):
@@ -195,10 +230,18 @@ def r3(R3, cfg, F):
         # ids start as a clone of the own directory's ids and are what is stored; the closure captures them mutably
         ids_op = ag[0][1]['rv']['ops'][ag[0][1]['rv']['fields'].index('ids')]
         cl = [c for c in b.calls() if c.callee and c.callee.name == 'clone' and 'Vec' in c.callee.best]
-        ok = len(cl) == 1 and b.origins(ids_op) == {('call', cl[0].bb)} and 'ids' in (b.access_path(cl[0].args[0]) or []) \
+        ok = len(cl) == 1 and (b.origins(ids_op) == {('call', cl[0].bb)} or common.deep_path(b, ids_op, at=ag[0][0]) == ['call@bb%d' % cl[0].bb]) and 'ids' in (b.access_path(cl[0].args[0]) or []) \
             and ('call', ld[0].bb) in b.origins(cl[0].args[0], passthrough=common.make_pt(common.TRY_BRANCH, r'Handle::<T>::read$', r'AssetReadGuard<.*> as std::ops::Deref>::deref$'))
         lit = agg_direct(b, sd[0].args[2])
-        ok = ok and lit is not None and lit['rv'].get('closure') == cb.path and any(b.origins(o) == {('call', cl[0].bb)} for o in lit['rv']['ops']) \
+        if lit is None:
+            # the closure may be bound to a name before it is passed
+            dp = common.deep_path(b, sd[0].args[2], at=sd[0].bb) or ['']
+            m_ = re.match(r'agg@bb(\d+)\.(\d+)$', dp[0]) if len(dp) == 1 else None
+            lit = b.blocks[int(m_.group(1))]['stmts'][int(m_.group(2))] if m_ else None
+
+        def is_ids(o):
+            return b.origins(o) == {('call', cl[0].bb)} or ('call', cl[0].bb) in b.origins(o, passthrough=common.pt_deref) and not [r for r in b.origins(o, passthrough=common.pt_deref) if r[0] == 'arg']
+        ok = ok and lit is not None and lit['rv'].get('closure') == cb.path and any(is_ids(o) for o in lit['rv']['ops']) \
             and b.origins(sd[0].args[0]) == {('arg', 1)} and b.origins(sd[0].args[1]) == {('arg', 2)}
         why = 'the stored ids are not own ids extended by the sub-directory walk of (cache, id)'
     R3.check(ok, cfg, b.path, 'own-dir-then-children', 'RecursiveDirectory::load: %s' % why, b.loc())
